@@ -46,7 +46,7 @@ def run(ctx):
 
         def do_cell(c):
             name, text, exp = c
-            return c, engines.observe(plain, sc.sub("census/" + name), {"main.nano": text})
+            return c, engines.observe(plain, sc.sub("census/" + name), census.files(name))
 
         census_out = {}
         for (name, text, exp), o in pmap(do_cell, cells):
